@@ -168,7 +168,7 @@ def unit_datetime_regex_pattern():
                 self = Ref(cls); st.heap[self.oid] = {}
                 df = Ref("DataFormat"); st.heap[df.oid] = {"_format": "delimited"}
                 rule = fresh(STR, "rule")[0]
-                st.frames[-1].env.update({"self": self, "field_name": fresh(STR, "fname")[0], "is_allowed_to_be_empty": fresh(BOOL, "e")[0], "length": "", "rule": rule, "data_format": df, "empty_value": ""})
+                st.frames[-1].env.update({"self": self, "field_name": fresh(STR, "fname")[0], "is_allowed_to_be_empty": fresh(BOOL, "e")[0], "length": "", "rule": rule, "data_format": df})
                 st.pc.append(z3.Length(lift(st.frames[-1].env["field_name"]).z) > 0)
                 st.ghost.update({"rule": rule, "compiled": None, "this": self})
             def m_compile(ex, st, fn, args, kw, cls=cls):
@@ -186,7 +186,7 @@ def unit_datetime_regex_pattern():
                 want = G(st, "rule") if cls == "RegExFieldFormat" else ex.absfun_s("fnmatch_translate", [z3.StringSort()], z3.StringSort())(G(st, "rule"))
                 return Sym(BOOL, z3.And(lift(c[0]).z == want, z3.BoolVal(c[1] == (_re.IGNORECASE | _re.MULTILINE))))
             out.append({"contract": Contract("fields.%s.__init__" % cls, setup_init,
-                            returns=[Clause(compiled_ok, "compiles-the-rule-(Pattern:-its-glob-translation)-with-exactly-IGNORECASE-|-MULTILINE", props=["C02"])],
+                            returns=[Clause(compiled_ok, "compiles-the-rule-(Pattern:-its-glob-translation)-with-exactly-IGNORECASE-|-MULTILINE", props=["C02"]), _c_empty_value("")],
                             raises={"InterfaceError": []}, expect=["return"], n_loops=0, raises_only_props=["C02", "C10"]),
                         "callees": {"builtin:re.compile": m_compile, "builtin:fnmatch.translate": m_translate, "class:Range": m_range_ctor}, "label": cls + ".__init__"})
         return out
@@ -436,6 +436,14 @@ def _field_init_env(ex, st, cls, rule, allowed_empty):
     return self
 
 
+def _c_empty_value(expected):
+    """C03: the type's empty value, fixed by the constructor (None for numbers and dates, '' for the text-like types)"""
+    def c(ex, st):
+        v = st.heap[st.ghost["this"].oid].get("_empty_value", "<unset>")
+        return Sym(BOOL, z3.BoolVal(v is None if expected is None else (isinstance(v, str) and v == expected)))
+    return Clause(c, "the-type's-empty-value-is-%s" % ("None" if expected is None else "the-empty-string"), props=["C03"])
+
+
 def unit_choice_init():
     T2 = sort_of(TOK); ttype = T2.accessor(0, 0); ttext = T2.accessor(0, 1)
     def tt(t): return z3.If(ttype(t) == TK.STRING, z3.SubString(ttext(t), 1, z3.Length(ttext(t)) - 2), ttext(t))
@@ -462,7 +470,7 @@ def unit_choice_init():
         good = "wf_upto(n) and (n % 2 == 1 or n == 0) and (n > 0 or ae)"
         c = Contract("fields.ChoiceFieldFormat.__init__", setup,
                 returns=[Clause(good, "accepted-only-a-rule-of-non-empty-values-separated-by-commas-without-trailing-comma-(no-values-only-if-the-field-may-be-empty)", props=["C02", "C09"]),
-                         Clause("choices_upto(this.choices, n)", "the-choices-are-the-values-in-rule-order-(quoted-values-without-their-quotes)", props=["C02"])],
+                         Clause("choices_upto(this.choices, n)", "the-choices-are-the-values-in-rule-order-(quoted-values-without-their-quotes)", props=["C02"]), _c_empty_value("")],
                 raises={"InterfaceError": [Clause(lambda ex, st: Sym(BOOL, z3.Or(z3.BoolVal(bool(st.ghost["tok_failed"])), z3.Not(ex.spec(good, st).z))), "refused-only-if-the-rule-is-not-such-a-list", props=["C02", "C09"])]},
                 loops={0: LoopSpec(invariants=["cursor() >= 1 and cursor() <= n + 1", "implies((cursor() - 1) % 2 == 1, cursor() - 1 == n)", "implies((cursor() - 1) % 2 == 0 and cursor() - 1 > 0, cursor() - 1 < n)", "wf_upto(cursor() - 1)", "choices_upto(this.choices, cursor() - 1)", "toky == T[cursor() - 1]"],
                                    havoc={"toky": TOK, "choice": STR, "previous_toky_text": Opt(STR), "this.choices": UFList(STR), "iter.cursor": INT})},
@@ -495,7 +503,7 @@ def unit_constant_init():
         good = "n <= 1 and (ae == (rule == '')) and length_accepts(len(constant()))"
         c = Contract("fields.ConstantFieldFormat.__init__", setup,
                 returns=[Clause(good, "accepted-only-a-single-token-rule-whose-length-fits-and-an-empty-rule-exactly-for-a-field-that-may-be-empty", props=["C02", "C09"]),
-                         Clause("this._constant == constant()", "the-constant-is-the-rule's-single-value-(quoted-value-without-its-quotes)", props=["C02"])],
+                         Clause("this._constant == constant()", "the-constant-is-the-rule's-single-value-(quoted-value-without-its-quotes)", props=["C02"]), _c_empty_value("")],
                 raises={"InterfaceError": [Clause(lambda ex, st: Sym(BOOL, z3.Or(z3.BoolVal(bool(st.ghost["tok_failed"])), z3.Not(ex.spec(good, st).z))), "refused-only-if-the-rule-is-not-such-a-constant", props=["C02", "C09"])]},
                 expect=["return", "InterfaceError"], raises_only_props=["C02", "C10"])
         return {"contract": c, "callees": {"_tools.tokenize_without_space": ModelContract(m_tokenize), "ref:TokenIter.__next__": tok_next, "class:Range": m_range,
@@ -512,7 +520,7 @@ def unit_integer_init():
     def setup(ex, st):
         rule = fresh(STR, "rule")[0]; ae = fresh(BOOL, "allowed_empty")[0]; lt = fresh(STR, "length_text")[0]
         self = _field_init_env(ex, st, "IntegerFieldFormat", rule, ae)
-        env = st.frames[-1].env; del env["length"]; env.update({"length_text": lt, "empty_value": None})
+        env = st.frames[-1].env; del env["length"]; env.update({"length_text": lt})
         st.ghost.update({"rule": rule, "this": self, "lt": lt, "range_failed": False, "from_length_failed": False, "fmt": st.heap[env["data_format"].oid]["_format"],
                          "rule_range": None, "length_range": None, "fixed_length_range": None, "derived": None, "default_range": None})
     def m_range(ex, st, info, args, kw):
@@ -570,7 +578,7 @@ def unit_integer_init():
     def make(ctx):
         c = Contract("fields.IntegerFieldFormat.__init__", setup,
                 returns=[Clause(c_valid_range, "valid-range-is-the-rule's-range-else-the-range-derived-from-the-length-(1...width-for-fixed)-else-the-signed-32-bit-range", props=["C02"]),
-                         Clause(lambda ex, st: Sym(BOOL, c_good(ex, st)), "accepted-only-if-every-limit-of-the-rule-fits-the-length-and-a-fixed-length-is-one-number", props=["C02", "C09"])],
+                         Clause(lambda ex, st: Sym(BOOL, c_good(ex, st)), "accepted-only-if-every-limit-of-the-rule-fits-the-length-and-a-fixed-length-is-one-number", props=["C02", "C09"]), _c_empty_value(None)],
                 raises={"InterfaceError": [Clause(lambda ex, st: Sym(BOOL, z3.Or(z3.BoolVal(bool(st.ghost["range_failed"]) or bool(st.ghost["from_length_failed"])), z3.Not(c_good(ex, st)))),
                                                   "refused-only-for-a-broken-range-text-an-underivable-length-or-a-rule-limit-that-does-not-fit", props=["C02", "C09"])]},
                 loops={0: LoopSpec(invariants=["fits_upto(_i0)"], havoc={"rule_item": ITEM, "partial_rule_limit": INT, "length_of_partial_rule_limit": INT}, locals_ok=("partial_rule_limits",))},
@@ -618,7 +626,6 @@ def unit_datetime_init():
     def setup(ex, st):
         rule = fresh(STR, "rule")[0]; ae = fresh(BOOL, "allowed_empty")[0]
         self = _field_init_env(ex, st, "DateTimeFieldFormat", rule, ae)
-        st.frames[-1].env["empty_value"] = None
         st.ghost.update({"rule": rule, "this": self})
     def m_range(ex, st, info, args, kw):
         r = Ref("Range"); st.heap[r.oid] = {"_items": None}; yield st, r
@@ -639,7 +646,7 @@ def unit_datetime_init():
     def make(ctx):
         c = Contract("fields.DateTimeFieldFormat.__init__", setup,
                 returns=[Clause(c_format, "strptime-format-is-the-rule-with-%-doubled-then-DD-MM-YYYY-YY-hh-mm-ss-replaced-by-their-directives-in-that-order", props=["C02"]),
-                         Clause(c_flags, "has-time-/-has-date-iff-the-format-contains-a-time-/-date-directive", props=["C02", "C16"])],
+                         Clause(c_flags, "has-time-/-has-date-iff-the-format-contains-a-time-/-date-directive", props=["C02", "C16"]), _c_empty_value(None)],
                 raises={}, expect=["return"], raises_only_props=["C02", "C10"])
         return {"contract": c, "callees": {"class:Range": m_range, "strmethod:replace": m_replace},
                 "assumptions": ["A-STR: str.replace(a, b) with non-empty a is SMT-LIB str.replace_all(s, a, b)", "the super().__init__ call is executed as real code with Range(length) abstracted (verified in contracts/ranges_init.py)"]}
@@ -650,7 +657,7 @@ def unit_decimal_init():
     def setup(ex, st):
         rule = fresh(STR, "rule")[0]; ae = fresh(BOOL, "allowed_empty")[0]; lt = fresh(STR, "length_text")[0]
         self = _field_init_env(ex, st, "DecimalFieldFormat", rule, ae)
-        env = st.frames[-1].env; del env["length"]; env.update({"length_text": lt, "empty_value": None})
+        env = st.frames[-1].env; del env["length"]; env.update({"length_text": lt})
         df = env["data_format"]; ds = fresh(STR, "dsep")[0]; ts = fresh(STR, "tsep")[0]
         st.heap[df.oid].update({"_decimal_separator": ds, "_thousands_separator": ts})
         st.ghost.update({"rule": rule, "this": self, "lt": lt, "fmt": st.heap[df.oid]["_format"], "ds": ds, "ts": ts, "range_failed": False, "dr": None, "lr": None, "default_text": None})
@@ -678,10 +685,35 @@ def unit_decimal_init():
     def make(ctx):
         c = Contract("fields.DecimalFieldFormat.__init__", setup,
                 returns=[Clause(c_sep, "separators-are-the-data-format's-for-delimited-and-fixed-data-and-'.'-/-none-for-spreadsheet-formats", props=["C02", "C16"]),
-                         Clause(c_ranges, "valid-range-is-DecimalRange(rule,-default-range)-length-is-Range(length_text)-precision-and-scale-are-the-range's", props=["C02", "C19"])],
+                         Clause(c_ranges, "valid-range-is-DecimalRange(rule,-default-range)-length-is-Range(length_text)-precision-and-scale-are-the-range's", props=["C02", "C19"]), _c_empty_value(None)],
                 raises={"InterfaceError": [Clause("range_failed", "refused-only-for-a-broken-rule-or-length-text", props=["C02", "C09"])]},
                 expect=["return", "InterfaceError"], raises_only_props=["C02", "C10"])
         return {"contract": c, "callees": {"class:Range": m_range, "class:DecimalRange": m_drange},
                 "assumptions": ["Range(text) / DecimalRange(text, default) are used through their verified contracts (contracts/ranges_init.py, ranges_dinit.py)",
                                 "DEFAULT_DECIMAL_RANGE_TEXT is the module constant of cutplace.ranges (read natively)"]}
     return ProofUnit("fields.DecimalFieldFormat.__init__", "DecimalFieldFormat.__init__: separators by data format, valid range from the rule (or the default decimal range), precision / scale", ["C02", "C16", "C19", "C10"], make, None)
+
+
+def unit_text_init():
+    def setup(ex, st):
+        rule = fresh(STR, "rule")[0]; ae = fresh(BOOL, "allowed_empty")[0]
+        self = _field_init_env(ex, st, "TextFieldFormat", rule, ae)
+        env = st.frames[-1].env
+        st.ghost.update({"this": self, "rule": rule, "ae": ae, "length_text": env["length"], "fname": env["field_name"], "df": env["data_format"], "range_failed": False, "lr": None})
+    def m_range(ex, st, info, args, kw):
+        sb = st.copy(); sb.ghost["range_failed"] = True; yield from raise_new(ex, sb, "InterfaceError")
+        r = Ref("Range"); st.heap[r.oid] = {"_items": None}
+        if args[0] is st.ghost["length_text"] and len(args) == 1 and not kw: st.ghost["lr"] = r
+        yield st, r
+    def c_bound(ex, st):
+        g = st.ghost; o = st.heap[g["this"].oid]
+        ok = (o.get("_field_name") is g["fname"] and o.get("_is_allowed_to_be_empty") is g["ae"] and g["lr"] is not None and o.get("_length") is g["lr"] and o.get("_rule") is g["rule"]
+              and o.get("_data_format") is g["df"] and o.get("_empty_value", 0) == "" and o.get("_example", 0) is None)
+        return Sym(BOOL, z3.BoolVal(bool(ok)))
+    def make(ctx):
+        c = Contract("fields.TextFieldFormat.__init__", setup,
+                returns=[Clause(c_bound, "name-empty-mark-rule-and-data-format-are-stored-as-given-the-length-is-Range(length-text)-an-empty-text-cell-yields-''", props=["C03", "C02", "C09"])],
+                raises={"InterfaceError": [Clause("range_failed", "refused-only-for-a-broken-length-text", props=["C09"])]},
+                expect=["return", "InterfaceError"], raises_only_props=["C03", "C10"])
+        return {"contract": c, "callees": {"class:Range": m_range}, "assumptions": ["Range(text) is used through its verified contract (contracts/ranges_init.py)"]}
+    return ProofUnit("fields.TextFieldFormat.__init__", "TextFieldFormat.__init__ with AbstractFieldFormat.__init__ inlined: attributes bound as given, length = Range(length text)", ["C03", "C02", "C09", "C10"], make, None)
